@@ -132,3 +132,49 @@ Proof.
   - intro H. rewrite W1. apply meets_fm_complete. exact H.
 Qed.
 
+
+(* ------------------------------------------------------------------ any pixel centre: translation invariance *)
+Lemma shift_min_geb : forall x y h a, (Z.min (x + a) (y + a) >=? h + a + 1) = (Z.min x y >=? h + 1).
+Proof. intros. rewrite Z.add_min_distr_r. rewrite !Z.geb_leb. destruct (Z.leb_spec (h + a + 1) (Z.min x y + a)), (Z.leb_spec (h + 1) (Z.min x y)); lia || reflexivity. Qed.
+Lemma shift_max_ltb : forall x y h a, (Z.max (x + a) (y + a) <? h + a - 1) = (Z.max x y <? h - 1).
+Proof. intros. rewrite Z.add_max_distr_r. destruct (Z.ltb_spec (Z.max x y + a) (h + a - 1)), (Z.ltb_spec (Z.max x y) (h - 1)); lia || reflexivity. Qed.
+Lemma shift_eqb : forall x y a, (x + a =? y + a) = (x =? y).
+Proof. intros. destruct (Z.eqb_spec (x + a) (y + a)), (Z.eqb_spec x y); lia || reflexivity. Qed.
+Lemma shift_ltb : forall x y a, (x + a <? y + a) = (x <? y).
+Proof. intros. destruct (Z.ltb_spec (x + a) (y + a)), (Z.ltb_spec x y); lia || reflexivity. Qed.
+Lemma shift_gtb : forall x y a, (x + a >? y + a) = (x >? y).
+Proof. intros. rewrite !Z.gtb_ltb. apply shift_ltb. Qed.
+Lemma shift_osgn : forall px py qx qy x y a b, osgn (px + a) (py + b) (qx + a) (qy + b) (x + a) (y + b) = osgn px py qx qy x y.
+Proof. intros. unfold osgn. f_equal. ring. Qed.
+
+Theorem hp_model_translate : forall a b hx hy p0x p0y p1x p1y,
+  hp_model (hx + a) (hy + b) (p0x + a) (p0y + b) (p1x + a) (p1y + b) = hp_model hx hy p0x p0y p1x p1y.
+Proof.
+  intros. unfold hp_model. rewrite shift_gtb.
+  destruct (p0x >? p1x); cbv zeta;
+    rewrite !shift_min_geb, !shift_max_ltb, !shift_eqb, !shift_ltb, !shift_gtb;
+    replace (hx + a - 1) with (hx - 1 + a) by ring; replace (hx + a + 1) with (hx + 1 + a) by ring;
+    replace (hy + b - 1) with (hy - 1 + b) by ring; replace (hy + b + 1) with (hy + 1 + b) by ring;
+    rewrite !shift_osgn; reflexivity.
+Qed.
+Theorem seg_meets_pixel_translate : forall a b hx hy px py qx qy,
+  seg_meets_pixel (hx + a) (hy + b) (px + a) (py + b) (qx + a) (qy + b) <-> seg_meets_pixel hx hy px py qx qy.
+Proof.
+  intros. unfold seg_meets_pixel. split; intros (n & m & Hm & Hn & Hx & Hy); exists n, m; (split; [exact Hm|]); (split; [exact Hn|]); split; nia.
+Qed.
+
+(* hotpixel_spec for every pixel centre, end points within 9 half units of it *)
+Theorem hotpixel_spec_any_centre : forall hx hy px py qx qy,
+  -9 <= px - hx <= 9 -> -9 <= py - hy <= 9 -> -9 <= qx - hx <= 9 -> -9 <= qy - hy <= 9 ->
+  (hp_gen hx hy px py qx qy = true <-> seg_meets_pixel hx hy px py qx qy).
+Proof.
+  intros hx hy px py qx qy H1 H2 H3 H4.
+  pose proof (hotpixel_spec_window (px - hx) (py - hy) (qx - hx) (qy - hy) H1 H2 H3 H4) as W.
+  rewrite gen_intersectsScaled_eq in *.
+  pose proof (hp_model_translate hx hy 0 0 (px - hx) (py - hy) (qx - hx) (qy - hy)) as T.
+  pose proof (seg_meets_pixel_translate hx hy 0 0 (px - hx) (py - hy) (qx - hx) (qy - hy)) as S.
+  replace (0 + hx) with hx in * by ring. replace (0 + hy) with hy in * by ring.
+  replace (px - hx + hx) with px in * by ring. replace (py - hy + hy) with py in * by ring.
+  replace (qx - hx + hx) with qx in * by ring. replace (qy - hy + hy) with qy in * by ring.
+  rewrite T. rewrite S. exact W.
+Qed.
